@@ -50,6 +50,24 @@ theorem offer_exact (s : Sub) (r : Rec) :
   · by_cases hroom : s.buf.length < PB.Gen.Subs.feedCap <;> simp [hv, hroom]
   · simp [hv]
 
+/-- **The buffer proviso is per subscription.** `notifySubscribers` makes one independent loop iteration for every
+    listed subscription, whatever happened at the subscriptions before it in the list — in particular a *full*
+    feed of an earlier subscription (its `default:` branch) does not end the loop: the subscriptions after it are
+    offered the record all the same, and each decides on its *own* buffer. (Stated over the loop as it is written,
+    `notifyLoop`, with the `return`/`break` shape of its three paths regenerated from the source.) -/
+theorem notify_offers_every_subscription_independently (r : Rec) (pre post : List Sub) (s : Sub) :
+    notifyLoop r (pre ++ s :: post) = pre.map (·.offer r) ++ s.offer r :: post.map (·.offer r) := by
+  simp [notifyLoop_eq_map]
+
+/-- … hence: a record that is for `s` is buffered for `s` iff `s`'s own buffer has room, no matter how full the
+    feeds of the subscriptions listed before or after it are. -/
+theorem full_feed_of_another_subscription_does_not_matter (st : St) (r : Rec) (pre post : List Sub) (s : Sub)
+    (hl : st.subs = pre ++ s :: post) (hv : s.visible r = true) (hroom : s.buf.length < PB.Gen.Subs.feedCap) :
+    (notify st r).subs = pre.map (·.offer r) ++ { s with buf := s.buf ++ [r], attempts := s.attempts ++ [(r, true)] } ::
+      post.map (·.offer r) := by
+  rw [notify_subs, hl]
+  simp [Sub.offer, hv, hroom]
+
 /-- "May see" is `Meta.CheckPermission` as regenerated from the source: crown jewels need a local subscriber,
     secrets an internal one. -/
 theorem visible_iff (s : Sub) (r : Rec) :
@@ -117,6 +135,18 @@ theorem cancel_silences (st : St) (op : Op) :
   | drain =>
     simp only [step, List.map_map]
     exact List.prefix_refl _
+  | drainOne id =>
+    simp only [step, List.map_map]
+    have : ((fun p : Sub × Nat => (p.1.id, p.1.attempts, p.2)) ∘
+        fun x : Sub × Nat => (if (x.1.id == id) = true then { x.1 with buf := [] } else x.1, x.2)) =
+        fun p : Sub × Nat => (p.1.id, p.1.attempts, p.2) := by
+      funext x
+      by_cases hx : (x.1.id == id) = true
+      · simp only [Function.comp, hx, if_true]
+      · simp only [Function.comp, hx]
+        rfl
+    rw [this]
+    exact List.prefix_refl _
 
 /-! ## A.2 Every successful write is delivered, failed ones are not -/
 
@@ -146,7 +176,7 @@ theorem controller_put_delivers_iff_successful (st : St) (r : Rec) :
         show (runPrePut st.hooks r).1 = _; rw [h1]
       rw [e] at this; exact this
     have hs := storeWrite_ok hw
-    refine ⟨w, ⟨rfl, rfl, rfl⟩, ?_, ?_⟩
+    refine ⟨w, ⟨rfl, notify_subs _ w, rfl⟩, ?_, ?_⟩
     · by_cases hd : (!st.cfg.shadow && r'.md.deleted) = true
       · simp only [hd, if_true] at hs
         obtain ⟨rfl, hg⟩ := hs
@@ -223,7 +253,7 @@ theorem modify_delivers_iff_successful (st : St) (o : Opts) (key : String) (m : 
         | error e => intro h; simp only []; rw [h]; exact ⟨rfl, rfl, rfl⟩
 
 /-- `PushUpdate` of an injected database: delivered, unconditionally. -/
-theorem push_delivers (st : St) (r : Rec) : Delivered st (step st (.push r)).1 r := ⟨rfl, rfl, rfl⟩
+theorem push_delivers (st : St) (r : Rec) : Delivered st (step st (.push r)).1 r := ⟨rfl, notify_subs st r, rfl⟩
 
 /-- Everything that is not a write delivers nothing: `Get`, hook (un)registration, flushing the delayed-write cache. -/
 theorem non_writes_deliver_nothing (st : St) (op : Op)
@@ -571,7 +601,20 @@ example :
     (run (St.init ⟨.hashmap, false⟩) ops).1.closed.map (fun p => (p.1.buf, p.2)) = [([⟨"a/x", 7, "foo", {}⟩], 2)] ∧
     (run (St.init ⟨.hashmap, false⟩) ops).1.writes.length = 3 := by
   simp [run, step, St.init, ifacePut, putDenied, Opts.all, newForm, applyOpts, putPrepared, ctrlPut, runPrePut, runRec,
-    Query.matches, storeWrite, Cfg.putForm, notify, Sub.offer, Sub.visible, permitted, PB.Gen.Subs.checkPermission,
+    Query.matches, storeWrite, Cfg.putForm, notify, notifyLoop, PB.Gen.Subs.notifySentExits, PB.Gen.Subs.notifyFullExits,
+    PB.Gen.Subs.notifySkipExits, Sub.offer, Sub.visible, permitted, PB.Gen.Subs.checkPermission,
     PB.Gen.Subs.feedCap, removeSub, sPut, sErase]
+
+/-- Non-vacuity of the per-subscription proviso: the first listed subscription has a full feed, the one subscribed
+    after it an empty one; one matching write: refused for the first, buffered for the second. -/
+example :
+    let q : Query := ⟨false, fun _ => true, fun _ => true⟩
+    let r : Rec := ⟨"a/x", 1, "foo", {}⟩
+    let full : Sub := ⟨0, true, true, q, List.replicate PB.Gen.Subs.feedCap r, 0, []⟩
+    let fresh : Sub := ⟨1, true, true, q, [], 0, []⟩
+    (notifyLoop r [full, fresh]).map (fun s => (s.id, s.buf.length, s.attempts)) =
+      [(0, PB.Gen.Subs.feedCap, [(r, false)]), (1, 1, [(r, true)])] := by
+  have hpos : 0 < PB.Gen.Subs.feedCap := by decide
+  simp [notifyLoop_eq_map, Sub.offer, Sub.visible, permitted, PB.Gen.Subs.checkPermission, Query.matches, hpos]
 
 end PB.C14
